@@ -23,6 +23,11 @@ def sub_bases():
     return out
 
 
+def arith_bases():
+    """purely arithmetic bases: no unary operator, every label a single character"""
+    return [[["x", "a"], [], ["+", "*"]], [["a"], [], ["/"]], [["x", "a"], [], ["+", "-", "*", "/"]], [["x"], [], ["-"]]]
+
+
 USER_STYLE = {   # C11: binary operators include + and *, unary subsets incl. cube, any of - / pow
     "verif_cube": [["x", "a"], ["cube", "inv", "exp"], ["+", "*", "pow"]],
     "verif_nosub": [["x", "a"], ["inv", "square", "log_abs", "exp"], ["+", "*"]],
